@@ -398,3 +398,65 @@ func RecursionTryMatrix() []string {
 	}
 	return out
 }
+
+// TailMixPrograms: a self-recursive function walks a plan; the plan entry of step i selects how activation i+1 is
+// entered: 0 = returned self call in tail position (frame re-used), 1 = self call as the last statement, its value
+// discarded (frame re-used, result must not leak), 2 = returned non-tail self call, 3 = discarded non-tail self call,
+// 4 = throw. Every program runs several plans one after the other through the same function object (in the script, or
+// through callVia when it is not empty). form 0: the discarded tail call is a bare last statement; form 1: it is the
+// body of an if statement that ends the function.
+func TailMixPrograms(callVia string, form int) []string {
+	var plans [][]int
+	var rec func(cur []int, n int)
+	rec = func(cur []int, n int) {
+		plans = append(plans, append([]int{}, cur...))
+		plans = append(plans, append(append([]int{}, cur...), 4))
+		if n == 0 {
+			return
+		}
+		for k := 0; k < 4; k++ {
+			rec(append(cur, k), n-1)
+		}
+	}
+	rec(nil, 4)
+	// fixed pseudo-random order so that throwing and non-throwing plans alternate irregularly
+	s := uint64(0x9E3779B97F4A7C15)
+	for i := len(plans) - 1; i > 0; i-- {
+		s = s*6364136223846793005 + 1442695040888963407
+		j := int((s >> 33) % uint64(i+1))
+		plans[i], plans[j] = plans[j], plans[i]
+	}
+	call := "f(0)"
+	if callVia != "" {
+		call = callVia + "(f, 0)"
+	}
+	last := "  f(i + 1)\n"
+	if form == 1 {
+		last = "  if k == 1 {\n    f(i + 1)\n  }\n"
+	}
+	head := "global L\nplan := []\nvar f\nf = func(i) {\n  L(1, i)\n  if i >= len(plan) {\n    return 100 + i\n  }\n  k := plan[i]\n" +
+		"  if k == 0 {\n    return f(i + 1)\n  }\n  if k == 2 {\n    return f(i + 1) + 1000\n  }\n  if k == 3 {\n    f(i + 1)\n    return 0 - i\n  }\n" +
+		"  if k == 4 {\n    throw error(\"t\")\n  }\n" + last + "}\nout := []\n"
+	var progs []string
+	for i := 0; i < len(plans); i += 6 {
+		var sb strings.Builder
+		sb.WriteString(head)
+		sb.WriteString("for p in [")
+		for j := i; j < i+6 && j < len(plans); j++ {
+			if j > i {
+				sb.WriteString(", ")
+			}
+			sb.WriteString("[")
+			for k, v := range plans[j] {
+				if k > 0 {
+					sb.WriteString(", ")
+				}
+				sb.WriteString(fmt.Sprint(v))
+			}
+			sb.WriteString("]")
+		}
+		sb.WriteString("] {\n  plan = p\n  try {\n    out = append(out, " + call + ")\n  } catch e {\n    out = append(out, \"E\")\n  }\n}\nreturn out\n")
+		progs = append(progs, sb.String())
+	}
+	return progs
+}
